@@ -39,6 +39,75 @@ HARNESSES = [
                        ('on', 'returns the block of the queried file starting on the query line; null otherwise'))
 ]
 
+# ---- overload identity: TypeManager::get_function_signature on real parameter types (c05_signature.cxx) ----
+_P = 'src/cppparser/'
+_SIG_TUS = ['src/interrogate/typeManager.cxx'] + [_P + x for x in (
+    'cppSimpleType.cxx', 'cppConstType.cxx', 'cppPointerType.cxx', 'cppReferenceType.cxx', 'cppFunctionType.cxx', 'cppParameterList.cxx',
+    'cppInstance.cxx', 'cppIdentifier.cxx', 'cppNameComponent.cxx', 'cppType.cxx', 'cppDeclaration.cxx', 'cppAttributeList.cxx',
+    'cppFile.cxx')] + ['src/dtoolutil/filename.cxx']
+_SIG_DOMAIN = ('one-parameter functions f(P) of the same (symbolic one-letter) name; P ranges over the real type objects T, const T, T &, '
+               'const T &, T &&, T *, const T *, T *const, const T *const with T = int (built from CPPSimpleType / CPPConstType / CPPReferenceType / '
+               'CPPPointerType; every signature computed by the real code in a concrete loop inside the query); the PAIR (a, b) of '
+               'overloads compared is symbolic.  const T && is outside (functions with rvalue-reference parameters are never exported)')
+def _sig(hid, defs, desc, oracle):
+    return {'id': hid, 'property': 'C05', 'src': 'c05_signature.cxx', 'entry': 'harness_c05_signature', 'tus': _SIG_TUS,
+            # -fno-inline: std::ostringstream stays an opaque modelled object (models/stream.c, noinline.c)
+            'tuflags': ['-fno-inline', '-fno-pic'], 'models': ['noinline.c'],
+            'cut': ['_ZN7CPPType8new_typeEPS_'],      # never reached (asserting stub): the harness builds the type graph itself
+            'skip_ctors': [x.split('/')[-1] for x in _SIG_TUS],
+            # a long concrete run (9 signatures printed through the real output_instance chain): --pointer-check makes symbolic
+            # execution quadratic (185 s vs 18 s); crashes still fail via models/base.c and the native ASan replay
+            'cbmc_flags': ['--no-pointer-check'],
+            'desc': desc, 'domain': _SIG_DOMAIN, 'oracle': oracle,
+            'bounds': {'quick': {'defs': dict(defs), 'unwind': 100, 'cap': 600}}}
+HARNESSES += [
+ _sig('c05_signature', {},
+      'TypeManager::get_function_signature (the key of InterrogateFunction::_instances: InterrogateBuilder::get_function makes one '
+      'wrapper record, prototype and comment per distinct key) with the real is_const_ref_to_anything / unwrap_const_reference and '
+      'the real type printers: injective on overloads that C++ tells apart',
+      'canon(P) = P without top-level const; whenever canon(Pa) != canon(Pb) the two signatures differ, except for the documented '
+      'pair {T or const T, const T &} ("C++ can\'t differentiate these two anyway"), and f(T) / f(const T &) are indeed keyed alike'),
+ _sig('c05_signature_redecl', {'REDECL': 1},
+      'TypeManager::get_function_signature on two declarations of the SAME function (parameter types that differ in top-level const '
+      'only: void f(int); void f(const int);)',
+      'canon(Pa) == canon(Pb) implies equal signatures (one callable variant, not two)'),
+]
+
+# ---- capture of // comment blocks: CPPPreprocessor::skip_cpp_comment under the real skip_whitespace / skip_comment ----
+_CC_TUS = ['src/cppparser/cppPreprocessor.cxx', 'src/cppparser/cppFile.cxx', 'src/dtoolutil/filename.cxx']
+# std::string never leaves its 15-byte SSO buffer (a block is at most NMAX + 3 bytes long): the heap path is cut, its auto
+# stub asserts if it were ever reached
+_CUT_HEAP_STRINGS = ['_ZNSt7__cxx1112basic_stringIcSt11char_traitsIcESaIcEE9_M_createERmm',
+                     '_ZNSt7__cxx1112basic_stringIcSt11char_traitsIcESaIcEE9_M_mutateEmmPKcm']
+# the lexer's loops nest (tokens x blanks x comment bytes); each gets the exact bound the stated input shape implies
+def _cc_loops(nmax, cmax):
+    return {'_ZN15CPPPreprocessor16skip_cpp_commentEi.0': cmax + 2,     # text bytes of one comment line
+            '_ZN15CPPPreprocessor12skip_commentEi.0': 2,                # iterates only after a C comment (never here)
+            '_ZN15CPPPreprocessor15skip_whitespaceEi.0': nmax + 4}      # one round per blank byte or comment
+def _cc(hid, hflags, desc, domain_extra, q, t):
+    return {'id': hid, 'property': 'C05', 'src': 'c05_cpp_comments.cxx', 'entry': 'harness_c05_cpp_comments', 'tus': _CC_TUS,
+            'skip_ctors': ['cppPreprocessor.cxx', 'cppFile.cxx', 'filename.cxx'],
+            # CPPPreprocessor::get: copy without `delete infile`; InputFile::get/peek: copies reading a byte array (all in the harness)
+            'cut': _CUT_HEAP_STRINGS + ['_ZN15CPPPreprocessor3getEv', '_ZN15CPPPreprocessor9InputFile3getEv', '_ZN15CPPPreprocessor9InputFile4peekEv',
+                                         '_ZN15CPPPreprocessor14skip_c_commentEi'],   # never reached: no '*' in the alphabet (asserting stub)
+            'models': ['list.c', 'noinline.c'], 'tuflags': ['-fno-inline'], 'hflags': list(hflags),
+            'desc': desc,
+            'domain': 'every input of n <= NMAX bytes over {/ a space newline} followed by a final newline, with at most TOKMAX code bytes '
+                      '(neither blank nor in a comment) and at most CMAX bytes after a // on its line' + domain_extra +
+                      ', read through line-by-line copies of InputFile::get/peek (line and column accounting) over a byte array and '
+                      'lexed by the real skip_whitespace / skip_comment / skip_cpp_comment, one token per non-blank non-comment byte',
+            'oracle': 'the captured CPPCommentBlocks equal an independent scan of the bytes: a // line continues the previous block iff '
+                      'that block ended on the immediately preceding line and only blanks lie in between, otherwise it starts a new '
+                      'block; number of blocks, text, first and last line and column of every block',
+            'bounds': {'quick': {'defs': {'NMAX': q, 'TOKMAX': 2, 'CMAX': 2}, 'unwind': q + 6, 'unwindset': _cc_loops(q, 2), 'cap': 600},
+                       'thorough': {'defs': {'NMAX': t, 'TOKMAX': 3, 'CMAX': 3}, 'unwind': t + 6, 'unwindset': _cc_loops(t, 3), 'cap': 3000}}}
+HARNESSES += [
+ _cc('c05_cpp_comments', [], 'capture of // comment blocks (CPPPreprocessor::skip_cpp_comment): block boundaries, text and line span', '', 7, 9),
+ _cc('c05_cpp_comments_rest', ['-DEXCLUDE_EMPTY_COMMENT'],
+     'as c05_cpp_comments without empty // comments (a // directly followed by the end of its line)',
+     ' in which every // is followed by at least one more byte on its line', 7, 9),
+]
+
 PROPERTY_INFO = {'C05': {'level': 'model_checking',
          'explanation': 'bounded symbolic execution (CBMC) of the real wrapper-record construction and comment attachment code lowered from /repo',
          'outside': 'names, scoping, base lists, cast availability, property/sequence records and prototypes computed from the '
